@@ -65,7 +65,7 @@ def run(tier, seed, replay=None):
         "compression libraries are outside the model: compressed clusters are validated through the Rust read-back (oracle) and their tail/offsets through the extracted decoder",
         "the entropy test is an oracle parameter; payloads whose entropy is within 0.05 of the threshold are not generated",
     ]
-    if not C.proof_layer(res, PID, K.THEORY + ["theories/Content/FilePack.v"]):
+    if not C.proof_layer(res, PID, K.THEORY + ["theories/Content/FilePack.v", "theories/Container/Reader.v", "theories/Container/Proofs.v", "theories/Container/EndToEnd.v"]):
         return res.finish()
     cases = K.parse_replay(replay) if replay else gen_cases(seed, tier)
     rm = K.run_cases(res, cases, seed)
